@@ -1097,6 +1097,10 @@ func (m *Manager) isValidSignedData(signedData *types.SignedData) bool {
 	if !bytes.Equal(signedData.Signer.Address, m.genesis.ProposerAddress) {
 		return false
 	}
+	// the signature is verified against the key carried by the item: that key must be the proposer's
+	if signedData.Signer.PubKey == nil || !bytes.Equal(types.KeyAddress(signedData.Signer.PubKey), m.genesis.ProposerAddress) {
+		return false
+	}
 	dataBytes, err := signedData.Data.MarshalBinary()
 	if err != nil {
 		return false
